@@ -482,6 +482,94 @@ func (m *Model) ruleREV(r *Results) {
 			}
 		}
 	}
+	// ... and a virtual name is never answered from what is stored under it: within one iteration,
+	// the lookup of the requested key in the stored xattrs is unreachable once the key has been
+	// found equal to a virtual name (with-meta writes store xattr blobs verbatim, so a stored
+	// "$document" would otherwise freeze the revision id)
+	for _, fn := range m.Funcs {
+		if fn.Parent() != nil || !m.inPkg(fn) {
+			continue
+		}
+		hasFmt := false
+		m.eachCall(fn, func(c ssa.CallInstruction) {
+			if f := c.Common().StaticCallee(); f != nil && f.Pkg != nil && f.Pkg.Pkg.Path() == "fmt" && f.Name() == "Sprintf" && len(c.Common().Args) > 0 {
+				if s, ok := constString(c.Common().Args[0]); ok && strings.Contains(s, "%d") && strings.Contains(s, `"`) {
+					hasFmt = true
+				}
+			}
+		})
+		if !hasFmt {
+			continue
+		}
+		type vtest struct {
+			iff *ssa.If
+			k   ssa.Value
+		}
+		var tests []vtest
+		for _, iff := range allIfs(fn) {
+			cd := condOf(iff)
+			if _, ok := cd.equalEdge(); !ok || cd.Y == nil {
+				continue
+			}
+			k, cst := cd.X, cd.Y
+			if _, isC := stripConv(k).(*ssa.Const); isC {
+				k, cst = cst, k
+			}
+			if c, ok := stripConv(cst).(*ssa.Const); ok && c.Value != nil && c.Value.Kind() == constant.String {
+				if b, ok := k.Type().Underlying().(*types.Basic); ok && b.Kind() == types.String {
+					tests = append(tests, vtest{iff, stripConv(k)})
+				}
+			}
+		}
+		for _, b := range fn.Blocks {
+			for _, ins := range b.Instrs {
+				lk, ok := ins.(*ssa.Lookup)
+				if !ok {
+					continue
+				}
+				if _, isMap := lk.X.Type().Underlying().(*types.Map); !isMap {
+					continue
+				}
+				for _, t := range tests {
+					if stripConv(lk.Index) != t.k {
+						continue
+					}
+					kin, ok := t.k.(ssa.Instruction)
+					if !ok {
+						continue
+					}
+					cd := condOf(t.iff)
+					eq, _ := cd.equalEdge()
+					// one iteration, under "the key equals this virtual name"
+					seen := map[*ssa.BasicBlock]bool{}
+					var reach func(x *ssa.BasicBlock) bool
+					reach = func(x *ssa.BasicBlock) bool {
+						if x == lk.Block() {
+							return true
+						}
+						if seen[x] {
+							return false
+						}
+						seen[x] = true
+						for _, sx := range x.Succs {
+							if sx.Dominates(x) {
+								continue // back edge: the next iteration has another key
+							}
+							if x == t.iff.Block() && sx != eq {
+								continue
+							}
+							if reach(sx) {
+								return true
+							}
+						}
+						return false
+					}
+					bad := kin.Block() != lk.Block() && reach(kin.Block()) || kin.Block() == lk.Block()
+					r.check(!bad, rule, m.declName(fn)+" / a virtual xattr is never answered from the stored xattrs", m.instrPos(lk), "the stored-xattr lookup of the requested key is unreachable where the key equals a virtual name", "the requested key is looked up among the stored xattrs although (or before) it may equal a virtual name (test at "+m.instrPos(t.iff)+"): a stored xattr of that name - with-meta writes store their blob verbatim - shadows the computed revision id, which then no longer follows the document's mutations")
+				}
+			}
+		}
+	}
 	if nv < 2 {
 		r.undecided(rule, "virtual xattrs", "-", "expected two formats of the virtual revision id, found %d", nv)
 	}
